@@ -229,7 +229,9 @@ let process_t (c : tcase) =
     end;
     if List.length med = List.length red && not (List.for_all2 (fun r m -> eq_d (as_perm_of beq_idev r m) m) red med) then begin
       incr n_diffs;
-      Printf.printf "DIFF class=%s id=%s family=%s-entry text=%s impl=%s model=%s\n" (cls "DEVS") c.id c.family c.text_hex (enc_d (cat_res red)) (enc_d (cat_res med))
+      let kb (r : idev list res) = (match r with Ok l -> Ok (List.filter is_kbd l) | Panic s -> Panic s) in
+      let only_nonkbd = List.for_all2 (fun r m -> eq_d (as_perm_of beq_idev (kb r) (kb m)) (kb m)) red med in
+      Printf.printf "DIFF class=%s id=%s family=%s-entry text=%s impl=%s model=%s\n" (if only_nonkbd then "DEVS_NONKEYBOARD" else cls "DEVS") c.id c.family c.text_hex (enc_d (cat_res red)) (enc_d (cat_res med))
     end
   end;
   (* statistics *)
